@@ -174,3 +174,21 @@ _reg(
     "DESIGN.md 3/C18",
     "Exploration over single-element / shape / count / dtype-class deviations; false mismatches on equivalent models are observations only (the property states soundness).",
 )
+
+_reg(
+    "C02",
+    "exploration",
+    "cases = (a) seeded pattern-neighbourhood ONNX graphs over 14 templates aimed at each rewrite rule (transpose pair around an elementwise "
+    "chain; Transpose-Reduce-Transpose; Add forests; Reshape pairs; identity Reshape; Cast pairs; Mul*Sigmoid; Mul*Rsqrt; Dropout+Not; "
+    "Range->Cast->Cast; dead nodes / orphan transposes / unused inputs; pattern inside an If branch; inside a function body) with varied "
+    "permutations (inverse and not), chain operators incl. non-members, side-operand kinds (scalar, vector, full tensor, second input), "
+    "intermediates that are also graph outputs or have extra consumers, symbolic dims, opset 21/24 - handed to the real optimize_graph; "
+    "(b) in situ: registered exports with a per-pass interposer. Only graphs whose pre-pass model passes the checker and runs in ORT are "
+    "counted. ORT(pre) vs ORT(post) on the same feeds: count, dtype, shape, bit-identical values (tolerance only for the ReduceMean "
+    "re-association pass). evaluations = valid pre-models executed before/after; non-trivial = a pass really changed the serialised graph; "
+    "distinct = (pass, graph).",
+    (900, 500, 9000, 5000),
+    "differential monitor at a hook: model serialised immediately before and after each optimizer pass, both executed in ORT on the same feeds",
+    "DESIGN.md 2.6, 3/C02",
+    "Exploration: seeded sampling of a bounded graph grammar around every rewrite rule plus every registered export, per-pass attribution through interposition on ir_optimizations.",
+)
